@@ -505,8 +505,12 @@ def strictness(ix, R, fams, table):
                 why.append('value stored is %s' % [fmt(fl, e.value) for e in st])
         r = the_return(fl)
         from sa.pattern import find as _find
-        if _find(f.node, ['V_o = %s(**V_kw)' % f.params()[1], 'return V_o'])[0] is None:
-            why.append('object is not built as klass(**kwargs)')
+        # the value returned is klass(**kwargs), through a temporary or not
+        ra_ = atom_of(fl, r.value)
+        if ra_ is None or ra_.head not in ('call', 'callexpr') or '**' not in (ra_.extra or ()):
+            if _find(f.node, ['V_o = %s(**V_kw)' % f.params()[1], 'return V_o'])[0] is None and \
+                    _find(f.node, ['return %s(**V_kw)' % f.params()[1]])[0] is None:
+                why.append('object is not built as klass(**kwargs)')
         R.check('3.strict', 'DOM', site,
                 'create_klass: every key of the section must be a constructor keyword (else KeyError); the value '
                 'given replaces the default; object = klass(**kwargs)',
@@ -604,6 +608,12 @@ def strictness(ix, R, fams, table):
         with R.guard('3.direct', 'DOM', site, 'direct construction'):
             f = ix.func(site)
             from sa.helpers import need
+            from sa.pattern import find as _find3
+            if _find3(f.node, ['V_cfg, V_k, V_m = determine_klass(V_cfg, V_field, V_fac, V_base)', 'return V_k(**V_cfg)'],
+                      binding={'V_cfg': f.params()[0]})[0] is not None:
+                # the same construction without the temporary
+                R.ok('3.direct', 'DOM', site, '%s builds klass(**config) with every remaining key of the section' % nm, loc=f.loc())
+                continue
             need(R, '3.direct', 'DOM', site, '%s builds klass(**config) with every remaining key of the section' % nm, f,
                  ['V_cfg, V_k, V_m = determine_klass(V_cfg, V_field, V_fac, V_base)', 'V_o = V_k(**V_cfg)', 'return V_o'],
                  binding={'V_cfg': f.params()[0]})
